@@ -78,9 +78,6 @@ Definition field_input (f : pfield) (kv : list (string * json)) : option json :=
 Definition has_default (f : pfield) : bool :=
   match rhs_default (p_value f) with DRequired => false | _ => true end.
 
-(* enums.py: member name = value, with "_" appended when the value is a Python keyword *)
-Definition member_name (v : string) : string := if iskeyword (s2l v) then v ++ "_" else v.
-
 Fixpoint find_member (m : string) (vals : list string) : option string :=
   match vals with
   | [] => None
